@@ -38,4 +38,10 @@ def run(chk):
                                  {"emit_batcher::Sender": "Drop for Sender closes the channel: the first copy dropped stops the receiver while the others still send, "
                                                           "their items are discarded and a flush reports success at once",
                                   "emit_batcher::Receiver": "two receivers would take batches concurrently and both clear is_in_batch"})
+    from . import shapes
+    from .mir import o_str as _o_str
+    shapes.returns_binop(chk, P, "C09.R5:EventBatch::len", "the number of events a file batch still holds is bufs.len() - index (what the capacity bound counts)",
+                         "<emit_file::EventBatch as emit_batcher::Channel>::len", "Sub",
+                         lambda o, b: o[0] == "call" and o[1].callee.get("name") == "len" and "bufs" in _o_str(b.origin(o[1].args[0])), lambda o, b: "index" in _o_str(o),
+                         "the capacity bound of the file emitter's queue is enforced on this number")
     return chk
